@@ -97,6 +97,8 @@ pub fn sinkrun(a: &[Sexp]) -> Sexp {
     let sink = Shared(Rc::new(RefCell::new(ss)), Rc::new(RefCell::new(Vec::new())));
     let Some((t, p)) = a[0].tagged() else { return bad("scenario") };
     let mut results: Vec<Sexp> = Vec::new();
+    // sink length after each operation of a single-object scenario
+    let mut marks: Vec<usize> = Vec::new();
     let res_n = |r: Result<usize, apache_avro::Error>| match r {
         Ok(n) => ok(vec![Sexp::num(n as u64)]),
         Err(_) => err(),
@@ -144,6 +146,7 @@ pub fn sinkrun(a: &[Sexp]) -> Sexp {
                         Err(e) => return bad(&e),
                     };
                     results.push(res_n(w.write_value_ref(&v, &mut s)));
+                    marks.push(sink.0.borrow().data.len());
                 }
             }
             "container" => {
@@ -229,6 +232,7 @@ pub fn sinkrun(a: &[Sexp]) -> Sexp {
             Sexp::hex(&data),
             Sexp::tag("calls", calls),
             Sexp::num(flushes as u64),
+            Sexp::tag("marks", marks.iter().map(|n| Sexp::num(*n as u64)).collect()),
         ],
     )
 }
